@@ -2,7 +2,8 @@
 
 States are reached by random histories (new / relate / unrelate / delete, as in C02) over the seven
 association shapes extended with two plain integer attributes P, Q (small value pool, to force ties).
-On the final state a batch of queries is run through the public API:
+On the final state a batch of queries is run through the public API (on two thirds of the cases the same
+queries were already asked on earlier states of the history, answers discarded):
 select_many / select_one / select_any with where_eq (keyword and dict form, also on id and referential
 attributes, also comparing with None), lambdas, order_by / reverse_order_by on one or two attributes,
 in any combination and order; navigation chains of length 1-4 (nav() and the K[rel, 'phrase'] syntax)
@@ -380,15 +381,38 @@ def run_impl(case):
     for c in schema['classes']:
         model.m.define_unique_identifier(c['name'], 'I7', 'P')
         model.m.define_unique_identifier(c['name'], 'I8', 'P', 'Q')
-    for op in case['ops']:
+    # "warm-up": on two thirds of the cases the SAME queries are also asked on earlier states of the model (half-way
+    # through the history: selections only; before the attribute values are assigned: all of them) and their answers
+    # thrown away — a result remembered from an earlier state must not leak into the answers on the final state
+    warm = (len(case['ops']) + len(case['queries'])) % 3 != 0
+    half = len(case['ops']) // 2
+
+    def warm_up(selections_only):
+        for q in case['queries']:
+            if selections_only and not q[0].startswith('select'):
+                continue
+            try:
+                run_query(model, q)
+            except Exception:
+                pass
+    for n, op in enumerate(case['ops']):
+        if warm and n == half:
+            warm_up(True)
         model.apply(op)
+    if warm:
+        # other attribute values at the time of the early questions: an instance that matches a selection only LATER
+        # may be created EARLIER than the one that matched when the question was first asked
+        for (j, p, q) in case['attrs']:
+            model.insts[j].P = (p + 1 + j) % 3
+            model.insts[j].Q = (q + 2 * j) % 3
+        warm_up(False)
     for (j, p, q) in case['attrs']:
         model.insts[j].P = p
         model.insts[j].Q = q
     rel = Rel(model, case)
     obs, fails = [], []
     nontrivial = False
-    stats = {}
+    stats = {'warmed_up': 1} if warm else {}
     for q in case['queries']:
         got = run_query(model, q)
         obs.append(got)
